@@ -72,7 +72,9 @@ class RenderContext:
         local_namespace_carry: int = 0,
     ) -> None:
         self.template = template
-        self.globals = global_data or {}
+        # Not `global_data or {}`: an empty mapping is falsy, and `copy()` passes
+        # a chain map whose first namespace the render tag fills in afterwards.
+        self.globals = global_data if global_data is not None else {}
         self.disabled_tags = disabled_tags or set()
         self.parent = parent
         # The template's global data, without any namespace added by `copy()`.
